@@ -11,8 +11,8 @@ use combine::stream::position::{self};
 #[cfg(feature = "std")]
 use combine::EasyParser;
 use combine::{
-    attempt, between, eof, many, many1, not_followed_by, one_of, optional, sep_by, ParseError,
-    Parser, Stream,
+    attempt, between, eof, many, many1, not_followed_by, one_of, optional, sep_by, unexpected_any,
+    value, ParseError, Parser, Stream,
 };
 
 use crate::lib::*;
@@ -52,15 +52,26 @@ where
     I: Stream<Token = char>,
     I::Error: ParseError<I::Token, I::Range, I::Position>,
 {
-    let sign = optional(one_of("-+".chars())).map(|x| match x {
-        Some('-') => -1,
-        _ => 1,
-    });
+    let sign = optional(one_of("-+".chars())).map(|x| matches!(x, Some('-')));
     let hex = string("0x")
         .with(many1(hex_digit()))
-        .map(|x: String| u64::from_str_radix(&x, 16).unwrap() as i64);
-    let dec = many1(digit()).map(|x: String| x.parse::<i64>().unwrap());
-    (sign, attempt(hex).or(dec)).map(|(s, x)| s * x)
+        .map(|x: String| u128::from_str_radix(&x, 16).ok());
+    let dec = many1(digit()).map(|x: String| x.parse::<u128>().ok());
+    // Any literal representable on 64 bits, signed or unsigned, is accepted; anything larger is a
+    // parse error (and not a panic).
+    (sign, attempt(hex).or(dec)).then(|(negative, magnitude): (bool, Option<u128>)| {
+        let parsed = magnitude.and_then(|m| {
+            if negative {
+                (m <= 1 << 63).then(|| (m as i128).wrapping_neg() as i64)
+            } else {
+                (m <= u64::MAX as u128).then_some(m as u64 as i64)
+            }
+        });
+        match parsed {
+            Some(x) => value(x).left(),
+            None => unexpected_any("integer out of range").right(),
+        }
+    })
 }
 
 fn register<I>() -> impl Parser<I, Output = i64>
@@ -72,7 +83,10 @@ where
     // instruction without operands such as `exit`), not a register: do not consume it.
     attempt(char('r').skip(not_followed_by(letter())))
         .with(many1(digit()))
-        .map(|x: String| x.parse::<i64>().unwrap())
+        .then(|x: String| match x.parse::<i64>() {
+            Ok(x) => value(x).left(),
+            Err(_) => unexpected_any("register number out of range").right(),
+        })
 }
 
 fn operand<I>() -> impl Parser<I, Output = Operand>
